@@ -217,6 +217,7 @@ Definition ast_eqb (a b : ast) : bool :=
 (* well-formedness of a row of spans, as a boolean *)
 
 Definition zseq (from : Z) (n : nat) : list Z := map (fun k => from + Z.of_nat k) (seq 0 n).
+Definition nthz {A} (l : list A) (i : Z) (d : A) : A := if i <? 0 then d else nth (Z.to_nat i) l d.
 
 Definition is_cont_of (r : row) (sc j : Z) : bool :=
   match ck (get r j) with Cont s => s =? sc | Start _ _ => false end.
